@@ -18,7 +18,9 @@
 (*   st.itc / st.ite      conditions listed by iter() / iter() agrees with *)
 (*                        get_state                                        *)
 (* The GHOST state g is what the contract itself keeps track of:           *)
-(*   g.init[s]  disposition inherited at start-up ("D" | "I")              *)
+(*   g.init[s]  disposition inherited at start-up ("D" | "I" | "C": a       *)
+(*              handler installed before the shell started, which the      *)
+(*              shell treats as the default disposition)                   *)
 (*   g.int[s]   the shell's own need for signal s (internal disposition)   *)
 (*              as requested through enable_* / disable_* / enter_subshell *)
 (*                                                                         *)
@@ -42,6 +44,12 @@ MaxD(a, b) == IF RankD(a) >= RankD(b) THEN a ELSE b
 Eff(s) == IF s \in {"TSTP", "TTIN", "TTOU", "STOP"} THEN "S"
           ELSE IF s = "CHLD" THEN "R" ELSE "K"
 
+\* Only IGNORED on entry is special; any other inherited disposition is the
+\* default one for the shell.  A handler inherited from before the shell started
+\* that is still installed (never blocked by the shell, unlike the shell's own
+\* handlers) is observed as "C"/unblocked and counts as the default disposition.
+IniEff(g, s)  == IF g.init[s] = "I" THEN "I" ELSE "D"
+EffSys(g, s, e) == IF g.init[s] = "C" /\ e.sys = "C" /\ ~e.blk THEN "D" ELSE e.sys
 InitAct(g, c) == IF c # "EXIT" /\ g.init[c] = "I" THEN "I" ELSE "D"
 
 \* the disposition implied by the user's action combined with the shell's needs
@@ -59,9 +67,9 @@ IsInherited(g, c, a) == a.act = InitAct(g, c) /\ a.cmd = "" /\ a.orig = "I" /\ a
 InvChecks(g, st) ==
   LET S == SigsOf(st) IN
   << <<"inv:disposition = max(internal, user action)   [vacant => inherited]",
-       \A s \in S : st.c[s].sys = Merged(st.c[s].act, g.int[s], g.init[s])>>,
+       \A s \in S : EffSys(g, s, st.c[s]) = Merged(st.c[s].act, g.int[s], IniEff(g, s))>>,
      <<"inv:caught signals are blocked, others are not (concurrency/signal.rs)",
-       \A s \in S : st.c[s].blk = (st.c[s].sys = "C")>>,
+       \A s \in S : st.c[s].blk = (EffSys(g, s, st.c[s]) = "C")>>,
      <<"inv:only blocked signals stay pending",
        \A s \in S : st.c[s].kp => st.c[s].blk>>,
      <<"inv:KILL and STOP are never trapped",
@@ -131,7 +139,7 @@ ExpAct(g, pre, op, s) ==
        ELSE IF e.act = "C" THEN "D" ELSE e.act
   ELSE e.act
 
-ExpSys(g, pre, op, s) == Merged(ExpAct(g, pre, op, s), NextG(g, pre, op).int[s], g.init[s])
+ExpSys(g, pre, op, s) == Merged(ExpAct(g, pre, op, s), NextG(g, pre, op).int[s], IniEff(g, s))
 
 \* A pending instance of a signal is delivered when the signal is unblocked;
 \* under the default action this kills or stops the shell and the call never
@@ -218,7 +226,8 @@ SubshellChecks(g, pre, op, res, post) ==
                  /\ f.pend => e.pend>>,
      <<"enter_subshell: pending instances", KpFrame(pre, post)>> >>
 
-\* kill(2) to the shell
+\* kill(2) to the shell.  (Not exercised while a handler inherited from before the
+\* shell started is still installed: what that handler does is not the shell's.)
 DeliverChecks(g, pre, op, res, post) ==
   LET s == op.c
       d == IF s \in {"KILL", "STOP"} THEN "D" ELSE pre.c[s].sys
